@@ -11,17 +11,14 @@ PACK = 60
 
 def generate(tier, seed):
     rnd = random.Random(seed * 7919 + 13)
-    g3 = C.run_tlc("Gen_Project", "Gen_Project_graphs3", workers=4, timeout=900, heap="8g").json_lines("REPLAY")
-    ge = C.run_tlc("Gen_Project", "Gen_Project_edges", workers=4, timeout=900, heap="8g").json_lines("REPLAY")
-    gl = C.run_tlc("Gen_Project", "Gen_Project_layouts", workers=4, timeout=900, heap="8g").json_lines("REPLAY")
-    gd = C.run_tlc("Gen_Project", "Gen_Project_derives", workers=4, timeout=900, heap="8g").json_lines("REPLAY")
-    g2 = C.run_tlc("Gen_Project", "Gen_Project_edges2", workers=4, timeout=900, heap="8g").json_lines("REPLAY")
+    modes = ["graphs3", "edges", "layouts", "derives", "edges2", "pairroots", "kinds"]
+    with ThreadPoolExecutor(max_workers=4) as ex:
+        outs = list(ex.map(lambda m: C.run_tlc("Gen_Project", "Gen_Project_" + m, workers=2, timeout=900, heap="6g").json_lines("REPLAY"), modes))
+    g3, ge, gl, gd, g2, gp, gk = outs
     if len(g3) < 3000 or len(ge) < 3000 or len(gl) < 2560 or len(gd) < 3456 or len(g2) < 800:
         raise C.ToolError("graph generation incomplete: %d %d %d %d %d" % (len(g3), len(ge), len(gl), len(gd), len(g2)))
-    gp = C.run_tlc("Gen_Project", "Gen_Project_pairroots", workers=4, timeout=900, heap="8g").json_lines("REPLAY")
     if len(gp) < 160:
         raise C.ToolError("pair-root generation incomplete: %d" % len(gp))
-    gk = C.run_tlc("Gen_Project", "Gen_Project_kinds", workers=4, timeout=900, heap="8g").json_lines("REPLAY")
     if len(gk) < 288:
         raise C.ToolError("node-kind generation incomplete: %d" % len(gk))
     if tier == "quick":
